@@ -61,6 +61,7 @@ class ItemSpec:
         self.subs = []
         self.abstract_loops = {}
         self.abstract_args = []
+        self.from_other_unit = False
         self.closures = {}
         self.strip_generics = False
 
@@ -107,7 +108,7 @@ def _default_id(selector):
     return selector
 
 
-def parse_template(path, specs_dir, seen=None):
+def parse_template(path, specs_dir, seen=None, contracts_only=False):
     """Returns list of parts: ('text', str) | ('item', ItemSpec); plus canaries."""
     seen = seen or set()
     if path in seen:
@@ -123,11 +124,18 @@ def parse_template(path, specs_dir, seen=None):
         ln = lines[i]
         st = ln.strip()
         if cur is None:
-            if st.startswith('//@include '):
-                inc = os.path.join(specs_dir, st[len('//@include '):].strip())
-                p2, c2 = parse_template(inc, specs_dir, seen)
+            if st.startswith('//@include-contracts '):
+                # same text, but every extracted function keeps only its signature + contract
+                # (assumed here, proved in the unit that includes the file normally)
+                inc = os.path.join(specs_dir, st[len('//@include-contracts '):].strip())
+                p2, c2 = parse_template(inc, specs_dir, seen, True)
                 parts.extend(p2)
-                canaries.extend(c2)
+            elif st.startswith('//@include '):
+                inc = os.path.join(specs_dir, st[len('//@include '):].strip())
+                p2, c2 = parse_template(inc, specs_dir, seen, contracts_only)
+                parts.extend(p2)
+                if not contracts_only:
+                    canaries.extend(c2)
             elif st.startswith('//@extract '):
                 body = st[len('//@extract '):]
                 if '::' not in body:
@@ -166,6 +174,13 @@ def parse_template(path, specs_dir, seen=None):
         d = d.strip()
         last_clause = None
         if d == 'end':
+            if contracts_only:
+                cur.external_body = True
+                cur.from_other_unit = True
+                cur.loops = {}
+                cur.ghosts = []
+                cur.closures = {}
+                cur.abstract_loops = {}
             parts.append(('item', cur))
             cur = None
         elif d.startswith('id '):
@@ -388,14 +403,41 @@ def _inject_body(body, spec):
         replaced.append((L['start'], L['end'] + 1, '/*@A1 loop %d abstracted@*/ %s' % (n, call)))
     if spec.closures:
         mb, _ = mask(body)
-        cl_pos = [mo for mo in re.finditer(r'(?<=[\(,=])\s*(\|[^|\n]*\|)\s*(?=\{)', mb)]
+        cl_pos = []
+        for mo in re.finditer(r'(?<=[\(,=])\s*(\|[^|\n]*\|)\s*', mb):
+            k = mo.end()
+            if 'verif_' in mo.group(1) or mb[k:k + 2] == '->':
+                continue    # closures generated / already annotated by rewrite R3
+            if mb[k] == '{':
+                cl_pos.append((mo.end(1), None))
+            else:
+                # expression body: ends at the ')' closing the enclosing call or at a ',' at depth 0
+                depth = 0
+                j = k
+                while j < len(mb):
+                    ch = mb[j]
+                    if ch in '([{':
+                        depth += 1
+                    elif ch in ')]}':
+                        if depth == 0:
+                            break
+                        depth -= 1
+                    elif ch == ',' and depth == 0:
+                        break
+                    j += 1
+                cl_pos.append((mo.end(1), (k, j)))
         for n, c in spec.closures.items():
             if n >= len(cl_pos):
-                raise UnitError('lost anchor: %s closure %d (function has %d block closures)' % (spec.id, n, len(cl_pos)))
+                raise UnitError('lost anchor: %s closure %d (function has %d closures)' % (spec.id, n, len(cl_pos)))
             ann = ' -> (verif_r: %s)\n            ensures\n' % (c['returns'] or '_')
             for label, expr in c['ensures']:
                 ann += '                /*@C:%s::closure%d.%s@*/ %s,\n' % (spec.id, n, label, expr)
-            inserts.append((cl_pos[n].end(1), 0, ann + '            '))
+            pos, expr_span = cl_pos[n]
+            if expr_span is None:
+                inserts.append((pos, 0, ann + '            '))
+            else:
+                inserts.append((pos, 0, ann + '            { '))
+                inserts.append((expr_span[1], 0, ' }'))
     order = 1
     for anchor, text in spec.ghosts:
         pos = _find_anchor(body, loops, anchor)
@@ -476,7 +518,7 @@ def process_item(repo, spec, mutations=None, force_false=False):
         log['A2:%s#%d' % (callee, idx)] = 1
     meta = {'id': spec.id, 'file': spec.path, 'selector': spec.selector, 'kind': item.kind,
             'line_start': item.line, 'line_end': item.line + nlines - 1, 'sha256': sha,
-            'rewrites': log, 'external_body': spec.external_body, 'nloops': 0,
+            'rewrites': log, 'external_body': spec.external_body, 'from_other_unit': spec.from_other_unit, 'nloops': 0,
             'requires': [l for l, _ in spec.requires], 'ensures': [l for l, _ in spec.ensures],
             'invariants': ['loop%d.%s' % (n, l) for n, lp in spec.loops.items() for l, _ in lp['invariants']]}
     if item.kind != 'fn':
